@@ -107,7 +107,7 @@ func CallEndSessionEndpoint(ctx context.Context, request any, authFn any, caller
 	if err != nil {
 		return nil, err
 	}
-	client := caller.HttpClient()
+	client := *caller.HttpClient() // copy, so the caller's client keeps following redirects
 	client.CheckRedirect = func(_ *http.Request, _ []*http.Request) error {
 		return http.ErrUseLastResponse
 	}
@@ -158,7 +158,7 @@ func CallRevokeEndpoint(ctx context.Context, request any, authFn any, caller Rev
 	if err != nil {
 		return err
 	}
-	client := caller.HttpClient()
+	client := *caller.HttpClient() // copy, so the caller's client keeps following redirects
 	client.CheckRedirect = func(_ *http.Request, _ []*http.Request) error {
 		return http.ErrUseLastResponse
 	}
